@@ -124,3 +124,58 @@ func VH_C02_index_filter() {
 	vassert("C02.K2.rect_found_iff_predicate", (gotR == 1) == wantR && gotR <= 1)
 	vobs("found", within, gotP, gotR)
 }
+
+// VH_C02_history: histories of one rectangle object: insert, an optional FSET/EXPIRE/PERSIST-style re-set (a new
+// object around the SAME geometry), then nothing / delete / move; a second rectangle keeps the tree populated.
+// The query visits exactly the current objects whose exact predicate holds: nothing deleted or moved away is
+// still found, nothing current is lost.
+//verif:cfg b_objects=2_rectangles(one_symbolic,one_fixed) b_history=insert,optional_re-set_with_the_same_geometry,then_none|delete|move quick.b_move_target=fixed_rectangle thorough.b_move_target=symbolic_rectangle b_query=rectangle b_coordinates=any_float32-representable_value_in_[-180,180] maxwall=1200
+func VH_C02_history() {
+	c := New()
+	other := object.New("o", geojson.NewRect(geometry.Rect{Min: geometry.Point{X: 100, Y: 50}, Max: geometry.Point{X: 110, Y: 60}}), 0, field.List{})
+	c.Set(other)
+	cur := object.New("r", geojson.NewRect(vhRect()), 0, field.List{})
+	c.Set(cur)
+	for k := vchoose(2); k > 0; k-- {
+		cur = object.New("r", cur.Geo(), int64(k)*5000000000, field.List{}.Set(field.Make("f", "1")))
+		c.Set(cur)
+		vreach("re-set")
+	}
+	switch vchoose(3) {
+	case 1:
+		prev := c.Delete("r")
+		vassert("C02.K2.delete_returns_current", prev == cur)
+		cur = nil
+		vreach("deleted")
+	case 2:
+		to := geometry.Rect{Min: geometry.Point{X: -20, Y: -10}, Max: geometry.Point{X: -10, Y: 10}}
+		if vthorough() {
+			to = vhRect()
+		}
+		cur = object.New("r", geojson.NewRect(to), 0, field.List{})
+		c.Set(cur)
+		vreach("moved")
+	}
+	q := geojson.NewRect(vhRect())
+	within := vnondetBool()
+	var gotR, gotO int
+	iter := func(o *object.Object) bool {
+		if cur != nil && o == cur {
+			gotR++
+		} else if o == other {
+			gotO++
+		} else {
+			vassert("C02.K2.history_only_current_objects", false)
+		}
+		return true
+	}
+	var wantR, wantO bool
+	if within {
+		c.Within(q, 0, nil, nil, iter)
+		wantR, wantO = cur != nil && cur.Geo().Within(q), other.Geo().Within(q)
+	} else {
+		c.Intersects(q, 0, nil, nil, iter)
+		wantR, wantO = cur != nil && cur.Geo().Intersects(q), other.Geo().Intersects(q)
+	}
+	vassert("C02.K2.history_found_iff_predicate", (gotR == 1) == wantR && gotR <= 1 && (gotO == 1) == wantO && gotO <= 1)
+}
